@@ -55,27 +55,27 @@ var c17Nets = []netID{
 	{"regtest", 0x6f, 0xc4, "bcrt", &chaincfg.RegressionNetParams},
 }
 
-func c17Keys() []sim.BtcKey {
+func c17Keys(nSecp, nSchn int) []sim.BtcKey {
 	var ks []sim.BtcKey
 	par := map[byte]int{}
-	for i := 0; len(ks) < 6; i++ {
+	for i := 0; len(ks) < nSecp; i++ {
 		k := sim.NewBtcKey(fmt.Sprintf("c17-secp-%d", i), false)
 		p := k.Priv.PubKey().SerializeCompressed()[0]
-		if par[p] >= 3 {
+		if par[p] >= nSecp/2 {
 			continue
 		}
 		par[p]++
 		ks = append(ks, k)
 	}
-	for i := 0; i < 5; i++ {
+	for i := 0; i < nSchn; i++ {
 		ks = append(ks, sim.NewBtcKey(fmt.Sprintf("c17-schnorr-%d", i), true))
 	}
 	return ks
 }
 
-func c17Evms() [][]byte {
+func c17Evms(n int) [][]byte {
 	out := [][]byte{make([]byte, 20), bytes.Repeat([]byte{0xff}, 20)}
-	for i := 0; i < 4; i++ {
+	for i := 0; i < n-2; i++ {
 		h := sha256.Sum256([]byte{byte(i), 'e'})
 		out = append(out, h[:20])
 	}
@@ -149,8 +149,11 @@ func netAccepts(n netID, a wdAddr) bool {
 func runC17(r *mc.Run) {
 	r.Rule = "deposit side: 11 relayer keys (6 ECDSA of both parities, 5 x-only) x 6 EVM addresses x 4 networks x versions 0/1 x 3 magic prefixes: address and data script from the real Query/DepositAddress handler and from the builders -> script via btcd -> the real verifier must accept for the generating (key, address) and reject for every other pair of the alphabet (full cross product); withdrawal side: hand-encoded p2pkh/p2sh/p2wpkh/p2wsh/p2tr addresses of 4 networks, pay-to-pubkey strings, every single-character substitution from a 4-symbol menu, decoded for every network by the real DecodeBtcAddress and end-to-end through ProcessBridgeRequest"
 	r.Assumptions = []string{"btcd address/script encoding trusted as reference decoder for mutated strings", "hash functions trusted"}
-	keys := c17Keys()
-	evms := c17Evms()
+	keys, evms := c17Keys(6, 5), c17Evms(6)
+	if r.Thorough() {
+		keys, evms = c17Keys(16, 12), c17Evms(12)
+	}
+	r.Bounds["keys"], r.Bounds["evm_addresses"] = len(keys), len(evms)
 	magics := [][]byte{[]byte("GTT0"), []byte("GTV1"), {0, 0, 0, 0}}
 	w, err := newDepWorld()
 	if err != nil {
@@ -291,6 +294,9 @@ func runC17(r *mc.Run) {
 	// ---- withdrawal addresses
 	addrs := c17WithdrawalAddrs()
 	symbols := []byte{'q', '2', 'z', 'Q'}
+	if r.Thorough() {
+		symbols = []byte{'q', '2', 'z', 'Q', 'p', '7', 'A', 'l', '0', 'x'}
+	}
 	check := func(a wdAddr, str string, mutated bool) {
 		for _, n := range c17Nets {
 			script, err := bitcointypes.DecodeBtcAddress(str, n.params)
